@@ -502,7 +502,7 @@ fn tracker_step_case(op: u8) -> u8 {
 #[kani::proof]
 #[kani::unwind(14)]
 pub fn c13_aligned_grid_charges_and_releases() {
-    let o = aligned_grid_case(3, 2, false);
+    let o = aligned_grid_case(3, 2, 0);
     kani::cover!(o == 0, "allocation refused");
     kani::cover!(o == 1, "grid allocated and released");
 }
@@ -516,7 +516,7 @@ pub fn c13_aligned_grid_charges_and_releases() {
 #[kani::proof]
 #[kani::unwind(9)]
 pub fn c13_aligned_grid_zero_area() {
-    let o = aligned_grid_case(0, 1, false);
+    let o = aligned_grid_case(0, 1, 0);
     kani::cover!(o == 0, "allocation refused");
     kani::cover!(o == 1, "grid allocated and released");
 }
@@ -530,13 +530,27 @@ pub fn c13_aligned_grid_zero_area() {
 #[kani::proof]
 #[kani::unwind(11)]
 pub fn c13_aligned_grid_try_clone() {
-    let o = aligned_grid_case(2, 1, true);
+    let o = aligned_grid_case(2, 1, 1);
     kani::cover!(o == 2, "clone charged and released");
     kani::cover!(o == 3, "clone refused, original still alive");
 }
 
-/// returns 0 = refused, 1 = allocated and released, 2 = cloned, 3 = clone refused
-fn aligned_grid_case(w: usize, h: usize, with_clone: bool) -> u8 {
+// @prop C13
+// @tier quick
+// @unit jxl_grid::AlignedGrid::<i32>::{with_alloc_tracker,clone_untracked}
+// @sym grid 2x1; tracker limit up to 4096 (so the remaining budget is anything from 0 to ample); alignment offsets nondeterministic
+// @bound one size
+// @oblig clone_untracked ("clones the buffer without recording an allocation") returns for every remaining budget - it never panics when the budget is short -, the copy holds no handle and charges nothing, and dropping it gives nothing back that was not taken
+#[kani::proof]
+#[kani::unwind(11)]
+pub fn c13_aligned_grid_clone_untracked() {
+    let o = aligned_grid_case(2, 1, 2);
+    kani::cover!(o == 4, "untracked clone made");
+    kani::cover!(o == 0, "original refused");
+}
+
+/// returns 0 = refused, 1 = allocated and released, 2 = cloned, 3 = clone refused, 4 = untracked clone
+fn aligned_grid_case(w: usize, h: usize, clone_mode: u8) -> u8 {
     let limit = kani::any::<u16>() as usize;
     kani::assume(limit <= 4096);
     let tracker = AllocTracker::with_limit(limit);
@@ -554,7 +568,15 @@ fn aligned_grid_case(w: usize, h: usize, with_clone: bool) -> u8 {
             // exactly `need` bytes are charged
             assert!(tracker.shrink_limit(limit - need + 1).is_err());
             let mut out = 1;
-            if with_clone {
+            if clone_mode == 2 {
+                // documented as "clones the buffer without recording an allocation": never fails,
+                // charges nothing, whatever budget is left
+                let c = grid.clone_untracked();
+                assert!(c.tracker().is_none());
+                assert!(tracker.shrink_limit(limit - need + 1).is_err());
+                drop(c);
+                out = 4;
+            } else if clone_mode == 1 {
                 let c = grid.try_clone();
                 match c {
                     Ok(c2) => {
